@@ -212,7 +212,7 @@ def apply_op(labs, wl, op: dict):
         kw = {n: op[n] for n in ("diti_reuse", "multi_disp", "liquid_class", "direction", "src_rack_id", "src_rack_type",
                                  "dst_rack_id", "dst_rack_type") if n in op}
         if "exclude" in op:
-            kw["exclude_wells"] = list(op["exclude"])
+            kw["exclude_wells"] = [fl(x) for x in op["exclude"]]
         wl.reagent_distribution(op["src_label"], fl(op["src_start"]), fl(op["src_end"]), op["dst_label"], fl(op["dst_start"]),
                                 fl(op["dst_end"]), volume=fl(op["vol"]), **kw)
     elif k in ("evo_aspirate", "evo_dispense"):
